@@ -63,7 +63,14 @@ def s_arity(tier):
         big = (65536, 65537, 65538, 65539) if (tier != "quick" or k in ("==", "-", "var", "max", "substr", "map", "!")) else ()
         for n in (255, 256, 257) + big + ((131072, 131073, 131074) if tier != "quick" else ()):
             out.append(("count-filler", k, n, app({k: [good_operand(k, i) if i < 3 else 1 for i in range(n)]}, {"a": 1, "b": None})))
-    bare = [1, 0, "a", "", None, True, 1.5, {"var": "a"}, {"a": 1}, {}, {"log": "x"}, "abc", -1, {"unknown": 1}]
+    bad_inner = [{"==": [1]}, {"!": [1, 2]}, {"!": []}, {"var": [1, 2, 3]}, {"map": [[1]]}, {"reduce": [[1], 1]}, {"substr": ["a"]}, {"-": [1, 2, 3]}, {"missing_some": [1]}, {"and": []}, {"in": [1]}, {"<": [1]},
+                 {"!!": [1, 2]}, {"log": [1, 2]}, {"/": [1]}, {"all": [[1]]}, {"max": []}]
+    for bi in bad_inner:
+        for coll in ([], None, [1, 2], {"var": "zz"}, {"filter": [[1], False]}, "", [0]):
+            for rule in ({"reduce": [coll, bi, 0]}, {"reduce": [coll, {"var": "current"}, bi]}, {"map": [coll, bi]}, {"filter": [coll, bi]}, {"all": [coll, bi]}, {"some": [coll, bi]}, {"none": [coll, bi]},
+                         {"if": [coll, bi, 1]}, {"if": [coll, 1, bi]}, {"and": [coll, bi]}, {"or": [coll, bi]}, {"if": [bi]}, {"and": [bi]}, {"var": ["zz", bi]}, {"cat": [coll, bi]}):
+                out.append(("model", "lazy-position", 0, app(rule, {"a": 1})))
+    bare = [1, 0, "a", "", None, True, 1.5, {"var": "a"}, {"a": 1}, {}, {"log": "x"}, "abc", -1, {"unknown": 1}] + bad_inner
     for k in ALLOPS:
         for x in bare:
             d = {"a": [1, 2], "b": None}
@@ -89,6 +96,7 @@ def s_literals(g, tier):
         for note in ("//", "#", "_comment", "$comment", "note", "description", "id", "@type", "", " ", "__proto__", "0", "_", "?", "version"):
             vals.append({note: "n", k: [good_operand(k, 0), good_operand(k, 1)]}); vals.append({note: 1, k: "a"})
             vals.append({"if": [True, {note: "n", k: [1, 2]}, 0]} if False else {"x": {note: "n", k: [1]}})
+    vals += ["{\"var\":\"a\"}", " {\"var\": \"a\"}", "{}", "[1]", "{\"==\":[1]}", "{\"a\":1}", "null", "\"x\"", "{\"+\":[1,2]}", ["{\"var\":\"a\"}"], {"k": "{\"var\":\"a\"}"}]
     vals += [{"": 1}, {"": {"var": "a"}}, {"a": {"var": "a"}}, [{"var": "a"}, {"+": [1, 2]}], {"and": [1], "or": [2]}, {"var": "a", "var ": "b"},
              {"a": 1, "b": {"if": [True, 1, 2]}}, [], [[]], [None], {"IF": [True, 1, 2]}, {"Var": "a"}, {"=": [1, 1]}, {"====": [1, 1]}, {"<>": [1, 2]},
              {"&&": [1, 2]}, {"||": [1, 2]}, {"not": [1]}, {"between": [1, 2, 3]}, {"method": [1]}]
@@ -155,6 +163,10 @@ def nested_if(g, depth):
     return {r.choice(["if", "if", "?:"]): ops_}
 
 
+def show_key(v):
+    return "null" if v is None else str(v)
+
+
 def s_control(g, tier):
     """C05: operand lists of length 0..7 over literals, data references, nested control flow, poisoned expressions"""
     d = {"t": "yes", "f": 0}
@@ -168,6 +180,19 @@ def s_control(g, tier):
         for y in dups[:4]:
             out += [app({"if": [x, x, "else"]}, d), app({"if": [x, x, x]}, d), app({"?:": [x, x, "else"]}, d), app({"and": [x, x]}, d), app({"or": [x, x]}, d), app({"if": [y, "a", x, x, "else"]}, d),
                     app({"if": [x, y, x]}, d), app({"and": [x, y, x]}, d), app({"or": [y, x, x]}, d)]
+    for nval in (2.0, 2, -0.0, 0, 1.0, 2 ** 53 + 1, float(2 ** 53), "2", True, None, [2]):
+        for op in ("===", "==", "!==", "<=", "in"):
+            lit = (lambda v: [v]) if op == "in" else (lambda v: v)
+            lad = []
+            for v in (1, 2, 0, 2 ** 53, "2", None):
+                lad += [{op: [{"var": "n"}, lit(v)]}, "is-%s" % show_key(v)]
+            for rule in ({"if": lad + ["other"]}, {"if": lad}, {"?:": lad + ["other"]}, {"if": lad[2:] + [{"log": "else"}]}, {"or": lad[0::2]}, {"and": lad[0::2]}):
+                out.append(app(rule, {"n": nval}))
+    for k_ in ("a", "zz", "a.b", ""):
+        for dflt in ({"==": [1]}, {"log": "dflt"}, {"+": ["x"]}, {"map": [1]}, 7):
+            v_ = {"var": [k_, dflt]}
+            out += [app({"or": [v_, "later"]}, d), app({"and": [v_, "later"]}, d), app({"or": ["", v_, "later"]}, d), app({"and": [1, v_, v_]}, d), app({"if": [v_, "T", "F"]}, d), app({"or": [v_]}, d),
+                    app({"or": [v_, v_]}, {"a": 1, "t": 1}), app({"and": [v_, "later"]}, {"a": 0}), app({"or": [v_, "later"]}, {"a": {"b": 1}}), app({"!!": [v_]}, {"a": 1})]
     kd = {"a": {"b": 1}, "a/b": 0, "x": {"y": 0}, "x/y": 5, "x~1y": "", "~0": 1, "1": "0", "0": "", "-1": [0], "2": {}, "t": "yes", "f": 0, "/": 0, "": {"": 1}}
     for key in ["a/b", "x/y", "x~1y", "~0", "/", "a/0", 1, 0, -1, 2, 3, [1], ["a/b"], "1", "0"]:
         c = {"var": key}
@@ -217,6 +242,19 @@ def s_truthy(g, tier):
         e = {"var": pth}
         out += [app({"!!": [e]}, dd), app({"!": [e]}, dd), app({"if": [e, "T", "F"]}, dd), app({"?:": [e, "T", "F"]}, dd), app({"and": [e, "next"]}, dd), app({"or": [e, "next"]}, dd),
                 app({"if": [False, 1, e, "T2", "F2"]}, dd), app({"filter": [[1], e]}, dd), app({"all": [[1], e]}, dd), app({"some": [[1], e]}, dd), app({"none": [[1], e]}, dd)]
+    people = [{"name": "Ann", "tags": ["x"], "s": "0"}, {"name": "", "tags": [], "s": ""}, {"name": "0", "tags": [0], "s": "ab"}]
+    for pth in ("name.0", "name.-1", "name.0.0", "name.1", "tags.0", "tags.-1", "s.0", "s.-1", "name", "-1", "0", "0.0"):
+        for pred in ({"var": pth}, {"var": [pth]}, {"!!": [{"var": pth}]}):
+            for q in ("filter", "all", "some", "none", "map"):
+                out.append(app({q: [{"var": "people"}, pred]}, {"people": people})); out.append(app({q: [{"var": "ws"}, pred]}, {"ws": ["ab", "", "0", "é😀"]}))
+                out.append(app({q: [people, pred]}, None))
+    shaped_members = [[{"var": "a"}], [{"var": "zz"}], [{"+": [0, 0]}], [{"!": [1]}, 0], [{"var": "a"}, {"var": "b"}]]
+    for coll in shaped_members:
+        for cond in ({"filter": [coll, {"var": ""}]}, {"map": [coll, {"var": ""}]}, {"merge": [coll]}, {"filter": [coll, True]}, {"filter": [coll, {"!": [{"var": ""}]}]}, {"filter": ["ab", True]},
+                     {"all": [coll, {"var": ""}]}, {"some": [coll, {"var": ""}]}, {"none": [coll, {"var": ""}]}, {"reduce": [coll, {"var": "current"}, 0]}, {"in": [0, coll]}, {"cat": coll}):
+            for dd in ({"a": 0, "b": 0}, {"a": 1, "b": 0}, {"a": [], "b": ""}):
+                out += [app({"if": [cond, "then", "else"]}, dd), app({"?:": [cond, "then", "else"]}, dd), app({"if": [0, 1, cond, "then2", "else2"]}, dd), app({"and": [cond, "next"]}, dd), app({"or": [cond, "next"]}, dd),
+                        app({"!!": [cond]}, dd), app({"!": [cond]}, dd), app({"filter": [[1, 2], cond]}, dd), app({"all": [[1], cond]}, dd)]
     # operator results in deciding position
     for e in [{"+": [0, 0]}, {"-": [1, 1]}, {"*": [-1, 0]}, {"cat": []}, {"cat": [""]}, {"merge": []}, {"merge": [[]]}, {"substr": ["abc", 3]},
               {"filter": [[0], {"var": ""}]}, {"map": [[], 1]}, {"missing": []}, {"missing": ["zz"]}, {"%": [4, 2]}, {"/": [0, 5]},
@@ -359,6 +397,7 @@ def s_var(g, tier):
             "é.ß", "é", "a\\b", "a\\\\b", "ab", "01", "+1", "", "zz", "a.zz", "a.b.c", "9223372036854775807", "-9223372036854775808", "9223372036854775808",
             "l.9223372036854775807", "l.-9223372036854775808", "l.-9223372036854775809", "l.18446744073709551615", "l.1e0", "l.0x1", "l.١", "s.😀", "a.b.1.0", "a.b.2.c.0"]
     datas.append({"a": {"b": 1, "0": "zero"}, "a/b": "slash", "x/y": 5, "x~1y": "tilde", "~0": "t0", "~": "t", "/": "root", "l": [["deep"]], "l/0": "l-slash"})
+    keys += ["l.-+1", "l.+-1", "l.--1", "l.++1", "l.-01", "l.+01", "s.-+1", "s.+0", "a.b.-+1", "name.0.-1", "s.0.-1", "s.-1.-1", "s.0.0.-1", "s.0.1", "s.0.-2", "l.2.0.-1", "2.-1", "0.-1.0"]
     keys += ["a/b", "x/y", "x~1y", "~0", "~", "/", "a/0", "l/0", "l/0/0", "a/b/c", "a~1b", "/a", "a/"]
     ikeys = [0, 1, -1, 2, 4, 5, -5, -6, 3, -3, 6, -7, I64MIN, I64MAX, 2 ** 63, U64MAX, 1.0, 0.5, -0.0, 1e3, None, True, [], ["a"], {}, [1], {"a": 1}]
     dflts = [None, 0, "dflt", {"var": "a.b.0"}, [1], {"cat": ["d", "f"]}]
@@ -390,9 +429,11 @@ def s_var(g, tier):
 def s_missing(g, tier):
     """C12"""
     out = []
-    datas = [{"a": 1, "b": None, "c": "", "d": [], "e": {"f": 0, "g": None}, "l": [1, None], "0": "z", "s": "str"}, [1, None, [2]], "text", None, {}, 5,
+    datas = [{"x.y": 7, "x": {"y": 1}, "k.f": 1, "zz.a": 0}, {"a": 1, "b": None, "c": "", "d": [], "e": {"f": 0, "g": None}, "l": [1, None], "0": "z", "s": "str"}, [1, None, [2]], "text", None, {}, 5,
              {"a.b": 1, "a": {"b": 2}}, {"name": "Zoë", "s": "héllo😀", "l": ["日本語"]}, "héllo", "日本"]
-    keylists = [["name.2.0", "name.0.0", "name.2.0.0", "name.2.1", "name.3.0", "name.-1.0", "name.-1.-1", "s.1.0.0.0"], ["0.0", "0.0.0", "0.1", "1.0", "-1.0.0"], ["l.0.0.0", "l.0.2.0", "l.0.3.0"],
+    keylists = [["l.-+1", "l.+-1", "l.--1", "l.++1", "l.- 1", "l.-01", "l.+01", "l.+1", "l.-0", "s.-+1", "name.-+1", "name.+0", "l.1e0", "l.0x0", "l. 0", "l.0 "],
+                ["x\\", "x\\.y", "x"], ["x\\.y", "x\\"], ["a", "a.b", "a.b.c"], ["a.b", "a"], ["zz", "zz.a", "zz.a.b"], ["e", "e.zz", "e.zz.q", "e.f"], ["x.", "x..y", "x.y"], ["k\\", "k\\.f"],
+                ["name.2.0", "name.0.0", "name.2.0.0", "name.2.1", "name.3.0", "name.-1.0", "name.-1.-1", "s.1.0.0.0"], ["0.0", "0.0.0", "0.1", "1.0", "-1.0.0"], ["l.0.0.0", "l.0.2.0", "l.0.3.0"],
                 ["name.2", "name.3", "name.-3", "name.-4"], ["s.5", "s.6", "s.9", "s.-6", "s.-7", "s.-10"], ["l.0.2", "l.0.3", "l.0.8", "l.0.-3", "l.0.-4", "l.0.-9"],
                 [4, 5, 6, -5, -6, -7], [1, 2, 3, 5, 6, -2, -3, -6], [], ["a"], ["zz"], ["a", "zz"], ["zz", "a", "yy"], ["a", "a", "b"], ["zz", "zz", "a"], ["zz", "yy", "zz", "yy"], ["b", "c", "d"], ["e.f", "e.g", "e.h"],
                 ["l.0", "l.1", "l.2", "l.-1"], [0, 1, 2, 3, -1], [None, "a", None, "zz"], ["", "a"], [None], ["a.b", "a\\.b"], ["s.0", "s.9"], [0, "0", 0],
@@ -459,6 +500,27 @@ def s_hof(g, tier):
                 out.append(app({"reduce": [{"var": "coll"}, e, i]}, dict(outer, coll=c)))
                 if not (isinstance(c, list) and c and G.is_op_shaped(c[0])) and not isinstance(c, dict):
                     out.append(app({"reduce": [c, e, i]}, outer))
+    sumr = {"+": [{"var": "current"}, {"var": "accumulator"}]}
+    inners = [{"reduce": [[10, 20], sumr, {"var": ""}]}, {"reduce": [{"var": ""}, sumr, 0]}, {"reduce": [[1, 2], {"+": [{"var": "current"}, {"var": "accumulator"}, 0]}, {"var": "x"}]}, {"map": [[1, 2], {"var": ""}]},
+              {"map": [{"var": ""}, 1]}, {"filter": [[0, 1, 2], {"var": ""}]}, {"all": [[{"var": ""}], {"var": ""}]}, {"some": [{"var": ""}, True]}, {"none": [[1], {"var": "zz"}]},
+              {"reduce": [[1], {"var": "accumulator"}, {"reduce": [[1], {"var": "accumulator"}, {"var": ""}]}]}, {"in": [{"var": ""}, [1, 2, 3]]}, {"merge": [[0], {"var": ""}]}, {"if": [{"var": ""}, "t", "f"]},
+              {"missing": ["a"]}, {"cat": ["c", {"var": ""}]}, {"reduce": [[1, 2], sumr, {"var": ["zz", {"var": ""}]}]}]
+    for inner in inners:
+        for n_ in (1, 2, 3, 13, 14, 15, 24, 40):
+            xs = list(range(1, n_ + 1))
+            out.append(app({"map": [xs, inner]}, None)); out.append(app({"filter": [xs, inner]}, None)); out.append(app({"map": [{"var": "xs"}, inner]}, {"xs": [[i] for i in xs]}))
+            out.append(app({"map": [{"var": "xs"}, inner]}, {"xs": [{"a": i, "x": i} if i % 2 else {"x": 0} for i in xs]}))
+    accs = [{"done": 0, "x": 1}, {"done": 1}, [0], [1, 0], {}, 0, "", [], "ab", {"x": {"y": 0}}]
+    for red in ({"and": [{"var": "accumulator.x"}, {"var": "current"}]}, {"or": [{"var": "accumulator.done"}, {"var": "current"}]}, {"or": [{"var": "accumulator.0"}, {"merge": [{"var": "current"}]}]},
+                {"and": [{"var": "accumulator"}, {"var": "current"}]}, {"or": [{"var": "accumulator"}, {"var": "current"}]}, {"or": [{"var": ["accumulator"]}, {"var": "current"}]}, {"and": [{"var": "current.k"}, {"var": "accumulator"}]},
+                {"if": [{"var": "accumulator.x"}, {"var": "accumulator"}, {"var": "current"}]}, {"or": [{"var": "accumulator.x.y"}, {"log": {"var": "current"}}]}, {"and": [{"var": "accumulator.-1"}, {"var": "current"}]},
+                {"or": [{"var": "current"}, {"var": "accumulator"}]}, {"max": [{"var": "accumulator.0"}, {"var": "current"}]}):
+        for acc in accs:
+            for xs in ([1, 2], [0, 7], [{"k": 1}, {"k": 0}], [], [0, 0, 5, 0]):
+                out.append(app({"reduce": [xs, red, acc]}, None)); out.append(app({"reduce": [{"var": "xs"}, red, {"var": "acc"}]}, {"xs": xs, "acc": acc}))
+    for coll in ([], None, {"var": "zz"}, {"filter": [[1], False]}):
+        for bad in ({"==": [1]}, {"var": [1, 2, 3]}, {"!": []}):
+            out += [app({"reduce": [coll, bad, 0]}, None), app({"reduce": [coll, {"var": "current"}, bad]}, None), app({"map": [coll, bad]}, None), app({"filter": [coll, bad]}, None)]
     # the fold order of a numeric reduce is observable in floating point; keys with backslashes inside map/filter; constant `log` predicates
     plus = {"+": [{"var": "current"}, {"var": "accumulator"}]}; plus2 = {"+": [{"var": "accumulator"}, {"var": "current"}]}; times = {"*": [{"var": "accumulator"}, {"var": "current"}]}
     for init, xs in ((2 ** 53, [1, 1]), (-1e308, [1e308, 1e308]), (1e16, [1, 1, 1, 1]), (0.1, [0.2, 0.3]), (1, [1e16, -1e16]), (9007199254740993, [0, 0]), (0, [0.1] * 10), (1e308, [1e308, -1e308]),
@@ -509,6 +571,19 @@ def s_quant(g, tier):
                 if not isinstance(c, (list, dict)):
                     out.append(app({k: [c, p]}, data))
         out.append(app({k: [{"log": [0, 1, 2]}, {"log": {"var": ""}}]}, None))
+    for cst, coll in (([1, 2], [[3, 4], [1, 2]]), ([], [[], 0]), ({"a": 1}, [{"a": 1}]), (2 ** 53, [2 ** 53 + 1]), (2 ** 53 + 1, [float(2 ** 53)]), (1, [1.0, "1"]), ("1", [1]), (None, [None]), (0, [-0.0]),
+                      ([1], [[1.0]]), (True, [1]), (U64MAX, [float(2 ** 64)]), ("a", ["a"]), ([None], [[None]])):
+        for k in ("all", "some", "none", "filter"):
+            for pred in ({"===": [{"var": ""}, cst]}, {"===": [cst, {"var": ""}]}, {"==": [{"var": ""}, cst]}, {"!==": [{"var": ""}, cst]}, {"in": [{"var": ""}, [cst]]}):
+                if isinstance(cst, dict): pred = {"===": [{"var": ""}, {"var": "nope"}]}
+                out.append(app({k: [{"var": "coll"}, pred]}, {"coll": coll})); out.append(app({k: [{"merge": [{"var": "coll"}]}, pred]}, {"coll": coll}))
+    for kexp in range(5, 17):
+        for n_ in (2 ** kexp - 1, 2 ** kexp, 2 ** kexp + 1):
+            if tier == "quick" and n_ > 20000 and n_ not in (32768, 65536): continue
+            sbig = "a" * n_ + "b"; ubig = "é" * (n_ // 2) + "b" + "é" * 3
+            for k in ("all", "some", "none"):
+                out += [app({k: [{"var": ""}, {"===": [{"var": ""}, "a"]}]}, sbig), app({k: [{"var": ""}, {"===": [{"var": ""}, "b"]}]}, sbig), app({k: [{"var": ""}, {"===": [{"var": ""}, "b"]}]}, ubig)]
+            out += [app({"substr": [{"var": ""}, -2]}, sbig), app({"substr": [{"var": ""}, n_ - 1, 3]}, ubig), app({"substr": [{"var": ""}, -5]}, ubig), app({"var": str(n_)}, sbig), app({"var": -1}, ubig), app({"in": ["ab", {"var": ""}]}, sbig)]
     # duality all [c,p] = none [c, !p] on non-empty collections is checked impl-vs-impl by the check
     n = 1500 if tier == "quick" else 30000
     for _ in range(n):
@@ -550,6 +625,13 @@ def s_merge_in(g, tier):
         for nd in (7, 7.0, 1e1, -0.0, 0, 0.0, "7", 39, 40, 39.0, None, 3.5, True):
             out.append(app({"in": [{"var": "x"}, hay]}, {"x": nd})); out.append(via_var("in", [nd, hay]))
             if not isinstance(nd, dict): out.append(app({"in": [nd, hay]}, None))
+    for nd in ("user", "", "super", "admin", ["admin"], None):
+        for hay in ({"merge": [["admin"], "superuser"]}, {"merge": ["superuser"]}, {"merge": ["superuser", ["user2"]]}, {"merge": [[], ""]}, {"filter": [["superuser", "x"], True]}, {"map": [["superuser"], {"var": ""}]},
+                    {"if": [True, ["superuser"]]}, {"cat": ["super", "user"]}, {"merge": [{"var": "l"}, {"var": "s"}]}, {"var": "l"}, {"merge": [[["admin"]], "x"]}, {"merge": [None, "superuser"]}):
+            out.append(app({"in": [nd, hay]}, {"l": ["admin"], "s": "superuser"}))
+    for nd, el in (({"b": 1}, {"a": None}), ({"a": None}, {"b": 1}), ({"a": 1, "b": None}, {"a": 1, "c": None}), ({"a": None}, {}), ({}, {"a": None}), ({"a": [None]}, {"a": []}), ({"x": {"b": 1}}, {"x": {"a": None}}),
+                   ({"a": None, "b": None}, {"c": None, "d": None}), ({"a": 1}, {"a": 1, "b": None})):
+        out.append(via_var("in", [nd, [el]])); out.append(via_var("in", [el, [nd]])); out.append(via_var("in", [[nd], [[el]]]))
     for s in ["", "a", "é", "😀", "lo😀", "llo", "hé", "x", "héllo😀", "éé"]:
         for h in ["", "a", "héllo😀", "éé", "aé"]:
             out.append(app({"in": [s, h]}, None))
@@ -646,6 +728,13 @@ def s_depth(levels=(20, 63)):
         out += [app({"if": [0, 0] * n + [1]}, None), app({"?:": [False, "x"] * n}, None), app({"or": [0] * (2 * n) + ["last"]}, None), app({"and": [1] * (2 * n) + ["last"]}, None),
                 app({"+": [1] * (2 * n)}, None), app({"cat": ["a"] * (2 * n)}, None), app({"merge": [[1]] * (2 * n)}, None), app({"max": [1] * (2 * n)}, None), app({"missing": ["a"] * (2 * n)}, None),
                 app({"all": [[1] * (2 * n), True]}, None), app({"some": [[0] * (2 * n), {"var": ""}]}, None), app({"map": [[1] * (2 * n), 1]}, None), app({"reduce": [[1] * (2 * n), {"var": "current"}, 0]}, None)]
+    # very long paths on which EVERY step succeeds (a character of a one-character string is that string again; data nesting cannot do this)
+    out += [app({"var": "a" + ".0" * 30000}, {"a": "x"}), app({"missing": ["a" + ".-1" * 30000]}, {"a": "x"}), app({"var": "0.0" * 10000}, ["y"])]
+    for n in (1500, 6000):
+        for seg in ("0", "-1"):
+            out += [app({"var": "a" + ("." + seg) * n}, {"a": "x"}), app({"missing": ["a" + ("." + seg) * n, "b"]}, {"a": "x"}), app({"missing_some": [1, ["a" + ("." + seg) * n]]}, {"a": "é"}),
+                    app({"var": ["0" + ("." + seg) * n, "dflt"]}, ["y"]), app({"var": (seg + ".") * n + seg}, "z")]
+        out += [app({"var": "a" + ".0.-1" * (n // 2)}, {"a": "x"}), app({"var": "a.b" + ".0" * n + ".1"}, {"a": {"b": "x"}}), app({"cat": ["x"] * n + [{"var": "a" + ".0" * n}]}, {"a": "x"})]
     # deeply nested DATA (126 levels of arrays / objects): string forms, comparisons, membership, lookups, truthiness
     deepa = 1; deepo = 1
     for _ in range(126):
